@@ -262,6 +262,7 @@ static value listing_with_pos(const instruction_set& set)
     return arr;
 }
 
+static value run_step(const value& st, std::map<int, std::unique_ptr<VM>>& vms);
 static value run_step(const value& st, std::map<int, std::unique_ptr<VM>>& vms)
 {
     auto out = value::obj();
@@ -278,6 +279,7 @@ static value run_step(const value& st, std::map<int, std::unique_ptr<VM>>& vms)
     {
         vms.erase(vid);
         vms[vid] = make_vm(st);
+        vms[vid]->cfg = st;
         out.set("logs", vms[vid]->logger.drain());
         return out;
     }
@@ -289,6 +291,29 @@ static value run_step(const value& st, std::map<int, std::unique_ptr<VM>>& vms)
     }
     auto itv = vms.find(vid);
     if (itv == vms.end()) { out.set("harness_error", "no such vm"); return out; }
+    if (itv->second->poisoned && itv->second->cfg["auto_renew"].boolean(false))
+    {
+        auto cfg = itv->second->cfg;
+        vms.erase(vid);
+        vms[vid] = make_vm(cfg);
+        vms[vid]->cfg = cfg;
+        vms[vid]->logger.drain();
+        itv = vms.find(vid);
+        out.set("renewed", true);
+        // re-run the prelude of the VM, if it has one
+        if (cfg.has("prelude_cfg"))
+        {
+            auto pst = value::obj();
+            pst.set("op", "cfg").set("vm", vid).set("src", cfg["prelude_cfg"].str());
+            run_step(pst, vms);
+        }
+        if (cfg.has("prelude"))
+        {
+            auto pst = value::obj();
+            pst.set("op", "run").set("vm", vid).set("src", cfg["prelude"].str()).set("reset_ts", true);
+            run_step(pst, vms);
+        }
+    }
     VM& vm = *itv->second;
     auto& rt = *vm.rt;
     try
@@ -305,6 +330,7 @@ static value run_step(const value& st, std::map<int, std::unique_ptr<VM>>& vms)
         {
             // what the CLI does for one input: load, start, abort unless ok
             bool ok = st.has("src") ? load_sqf(vm, st, out) : true;
+            if (st["reset_ts"].boolean(false)) rt.runtime_timestamp_reset();
             if (ok)
             {
                 do_action(vm, "start", out);
@@ -471,8 +497,15 @@ int main(int argc, char** argv)
         {
             std::map<int, std::unique_ptr<VM>> vms;
             auto& steps = c["steps"];
+            bool journal_steps = c["journal_steps"].boolean(false);
             for (size_t i = 0; i < steps.size(); i++)
             {
+                if (journal_steps)
+                {
+                    char buf[64];
+                    int n = snprintf(buf, sizeof buf, "S %lld %zu\n", g_cur_id, i);
+                    if (write(1, buf, (size_t)n) < 0) {}
+                }
                 res.push(run_step(steps.at(i), vms));
             }
             api_reset();
